@@ -78,6 +78,16 @@ func collectBucketCandidates(sw hydra.Swamp, hints []BucketHint) []treasure.Trea
 // path in beacon.findTimeRangeBounds and the documented SDK semantics
 // on Index.FromTime / Index.ToTime. Either or both bounds may be nil.
 func applyTimeRange(candidates []treasure.Treasure, beaconType hydra.BeaconType, fromTime, toTime *time.Time) []treasure.Treasure {
+	if beaconType == hydra.BeaconTypeExpirationTime {
+		// the expiration index holds only records that have an expiry; so does this route
+		withExpiry := candidates[:0]
+		for _, t := range candidates {
+			if t.GetExpirationTime() != 0 {
+				withExpiry = append(withExpiry, t)
+			}
+		}
+		candidates = withExpiry
+	}
 	if fromTime == nil && toTime == nil {
 		return candidates
 	}
